@@ -66,15 +66,20 @@ def _routine_set(indent0: int) -> tuple[list[Any], list[list[Any]], list[Any]]:
     p1.indent = indent0
     p2 = SsbOpParamLanguageString({"english": "a\nb"})
     p2.indent = indent0
-    if _c % 3 == 0:
+    if _c % 4 == 0:
         ops = [[SsbOperation(0, SsbOpCode(-1, "say"), [p1, 3]), SsbOperation(1, SsbOpCode(-1, "BranchDebug"), [1, 4]),
                 SsbOperation(2, SsbOpCode(-1, "tell"), [p2]), SsbOperation(3, SsbOpCode(-1, "End"), []),
                 SsbOperation(4, SsbOpCode(-1, "other"), []), SsbOperation(5, SsbOpCode(-1, "End"), [])]]
-    elif _c % 3 == 1:
+    elif _c % 4 == 1:
         ops = [[SsbOperation(0, SsbOpCode(-1, "Switch"), [SsbOpParamConstant("$V")]), SsbOperation(1, SsbOpCode(-1, "Case"), [1, 4]),
                 SsbOperation(2, SsbOpCode(-1, "Case"), [2, 6]), SsbOperation(3, SsbOpCode(-1, "Jump"), [7]),
                 SsbOperation(4, SsbOpCode(-1, "say"), [p1]), SsbOperation(5, SsbOpCode(-1, "Jump"), [7]),
                 SsbOperation(6, SsbOpCode(-1, "tell"), [p2]), SsbOperation(7, SsbOpCode(-1, "End"), [])]]
+    elif _c % 4 == 3:
+        # a loop whose continue/break is reached from outside the loop (the writers consult the forever-handler stack)
+        ops = [[SsbOperation(0, SsbOpCode(-1, "Jump"), [2]), SsbOperation(1, SsbOpCode(-1, "Null1"), []),
+                SsbOperation(2, SsbOpCode(-1, "BranchDebug"), [0, 1]), SsbOperation(3, SsbOpCode(-1, "Return"), []),
+                SsbOperation(4, SsbOpCode(-1, "Return"), [])]]
     else:
         ops = [[SsbOperation(0, SsbOpCode(-1, "a"), []), SsbOperation(1, SsbOpCode(-1, "say"), [p1]),
                 SsbOperation(2, SsbOpCode(-1, "BranchEdit"), [0, 4]), SsbOperation(3, SsbOpCode(-1, "Jump"), [0]),
@@ -105,17 +110,20 @@ def h_convert_havoc(out: str, indent: int, line: int, indent0: int, lab: int, b1
     from explorerscript.source_map import SourceMapBuilder
 
     infos, ops, coros = _routine_set(indent0)
+    # class-level lists as an earlier (possibly aborted) conversion of another object may have left them
+    ExplorerScriptSsbDecompiler.forever_start_handler_stack = [object()] if b1 else []  # type: ignore
+    ExplorerScriptSsbDecompiler.labels_already_printed = [lab]
     d = ExplorerScriptSsbDecompiler(infos, ops, coros, "$P", DungeonModeConstants("c", "o", "r", "x"))
     d._output = out
     d.indent = indent
     d._line_number = line
     d.labels_already_printed = [lab] if b1 else []
     d.smb = SourceMapBuilder().add_opcode(77, line, indent) if b1 else None  # type: ignore
-    ExplorerScriptSsbDecompiler.labels_already_printed = [lab]
     try:
         text, sm = d.convert()
     finally:
         ExplorerScriptSsbDecompiler.labels_already_printed = []
+        ExplorerScriptSsbDecompiler.forever_start_handler_stack = []
     return verdict((text, sm.serialize()) == BASE_CONVERT)
 
 
@@ -171,14 +179,15 @@ OBLIGATIONS = [
     {"id": "C11.S1b", "module": __name__, "func": "h_convert_havoc",
      "what": "convert() with arbitrary stale _output / indent / _line_number / labels_already_printed / smb, stale class "
              "level list, and arbitrary initial indent on the caller's string parameters gives the fresh text and map",
-     "cases": [0, 1, 2], "timeout": {"quick": 300, "thorough": 900},
-     "bounds": "3 routine sets (if/else with multi-line strings; switch; loop), stale values symbolic",
+     "cases": [0, 1, 2, 3], "timeout": {"quick": 300, "thorough": 900},
+     "bounds": "4 routine sets (if/else with multi-line strings; switch; loop; loop entered by a jump), stale values symbolic, "
+               "class-level labels_already_printed / forever_start_handler_stack pre-filled",
      "encodes": ["explorerscript.ssb_converting.ssb_decompiler.ExplorerScriptSsbDecompiler.convert"],
      "stubs": ["igraph runs concretely underneath"]},
     {"id": "C11.S3", "module": __name__, "func": "h_no_input_mutation",
      "what": "after convert() the caller's routine lists hold the same op objects with the same offsets, opcodes and "
              "parameter objects",
-     "cases": [0, 1, 2], "timeout": {"quick": 300, "thorough": 900}, "bounds": "3 routine sets, initial indent 0..3",
+     "cases": [0, 1, 2, 3], "timeout": {"quick": 300, "thorough": 900}, "bounds": "4 routine sets, initial indent 0..3",
      "encodes": ["explorerscript.ssb_converting.ssb_decompiler.ExplorerScriptSsbDecompiler.convert"]},
     {"id": "C11.S4", "module": __name__, "func": "h_cli_reader_repeatable",
      "what": "the decompile CLI's reader numbers ops 1..n whatever was read before in the same process",
